@@ -50,7 +50,8 @@ pub fn check_ep(ep: &EnergyPerformance, cfg: &str, out: &mut Out) {
             }
             Energy::Aux(e) => {
                 let srv = format!("{}", e.service);
-                let tgt = if srv == "NEPB" { &mut in_nepus } else { &mut in_epus };
+                // auxiliaries of a system without EPB service keep a non-EPB service tag (NEPB, COGEN): non-EPB use
+                let tgt = if srv == "NEPB" || srv == "COGEN" { &mut in_nepus } else { &mut in_epus };
                 add(tgt.entry("ELECTRICIDAD".into()).or_default(), &e.values);
             }
             Energy::Prod(e) => {
